@@ -42,6 +42,28 @@ Pair ==
                 /\ (a.names = b.names => \A k \in 1..Len(a.contrib) : C(<<"contribution", a.names[k]>>, a.contrib[k], b.contrib[k], eN))))
      /\ cnt' = BumpAll(cnt, {"pairs", "class:" \o E.class, "pair:" \o E.pair})
 
+\* A pure substance written as a binary mixture of two identical components (amounts a N and (1-a) N): the specialised single-component
+\* code path of the functional, the general mixture path of the functional and the mixture path of the equation of state describe the
+\* same fluid - equal residual A, p, S, dp/dV, dp/dT, and both copies carry the residual chemical potential of the pure substance.
+Split ==
+  /\ Ev("Split")
+  /\ LET p == E.pure  f == E.dup_functional  e == E.dup_eos
+         tol == Tol(E.class)
+         info == <<E.pair, E.T, E.V, E.N, E.a>>
+         eN == FMul("1e-3", FMul(E.N, E.T))
+         C(what, x, y, floor) == Chk("C08.split", <<info, what, l>>, x, y, tol, FAdd(FMax(FAbs(x), FAbs(y)), floor), "0")
+         Same(tag, d) ==
+           /\ C(<<tag, "A">>, p.A, d.A, eN)
+           /\ C(<<tag, "p">>, p.p, d.p, FDiv(eN, E.V))
+           /\ C(<<tag, "S">>, p.S, d.S, FMul("1e-3", E.N))
+           /\ C(<<tag, "dp_dv">>, p.dp_dv, d.dp_dv, FDiv(eN, FMul(E.V, E.V)))
+           /\ C(<<tag, "dp_dt">>, p.dp_dt, d.dp_dt, FDiv(FMul("1e-3", E.N), E.V))
+           /\ \A i \in 1..2 : C(<<tag, "mu", i>>, p.mu[1], d.mu[i], FMul("1e-3", E.T))
+     IN
+     /\ Report("C08.states_exist", <<info, l>>, p.ok /\ f.ok /\ e.ok)
+     /\ ((p.ok /\ f.ok /\ e.ok) => Same("functional", f) /\ Same("eos", e))
+  /\ cnt' = BumpAll(cnt, {"splits"})
+
 Assoc ==
   /\ Ev("Assoc")
   /\ \A k \in 1..3 : Chk("C08.assoc", <<E.pair, E.T, E.rho, k, l>>, E.analytic[k], E.cross[k], "1e-8",
@@ -59,7 +81,7 @@ Other == /\ (Ev("Skip") \/ Ev("Panic"))
          /\ Report("C08.no_panic", <<E.pair, l>>, E.ev # "Panic")
          /\ cnt' = Bump(cnt, "skipped_or_panic")
 Init == l = 1 /\ cnt = NoCount
-Next == /\ (Pair \/ Assoc \/ PengRobinsonSI \/ Other)
+Next == /\ (Pair \/ Split \/ Assoc \/ PengRobinsonSI \/ Other)
         /\ (l' > NRec => PrintT("STATS " \o ToJson(cnt')))
 TraceSpec == Init /\ [][Next]_vars
 ================================================================================
